@@ -6,10 +6,11 @@ tier=${TIER:-quick}
 for p in ${@:-$(ls neutral/*.diff)}; do
   d=$(mktemp -d /tmp/moqneutral.XXXXXX)
   rsync -a --exclude .git /repo/ $d/
-  if ! (cd $d && patch -p1 -s < /verif/$p); then echo "$p: patch failed"; rm -rf $d; continue; fi
+  case $p in /*) pf=$p;; *) pf=/verif/$p;; esac
+  if ! (cd $d && patch -p1 -s < $pf); then echo "$p: patch failed"; rm -rf $d; continue; fi
   if ! (cd $d && GOPROXY=off go build ./... 2>&1 | head -3); then echo "$p: does not build"; fi
   mkdir -p $d/.verif && cp known_findings.jsonl $d/.verif/
-  line="$(basename $p .diff):"
+  line="$(basename $(dirname $(dirname $pf)))/$(basename $(dirname $pf))/$(basename $p .diff):"
   for i in $(seq -w 1 20); do
     out=$(bin/moqlint -property C$i -tier $tier -repo $d -verif $d/.verif 2>&1); rc=$?
     if [ $rc -ne 0 ]; then
